@@ -91,7 +91,7 @@ def solve_problem(triples, dim, size, mult=None, rnd=None):
     """rows / rhs of the linearised problem (points optionally multiplied by `mult` and rounded as the C++ does),
     its least-squares solution by QR and the singular values of J"""
     rows, ys = [], []
-    ymag = 0.0
+    ymag = cmag = 0.0
     for s, t, n in triples:
         if mult is not None:
             s = [rnd(v * mult) for v in s]
@@ -99,6 +99,7 @@ def solve_problem(triples, dim, size, mult=None, rnd=None):
         rows.append(_row(dim, s, n))
         ys.append(math.fsum((t[c] - s[c]) * n[c] for c in range(size)))
         ymag = max(ymag, math.fsum(abs((t[c] - s[c]) * n[c]) for c in range(size)))
+        cmag = max(cmag, math.fsum((abs(t[c]) + abs(s[c])) * abs(n[c]) for c in range(size)))
     e = 3 if dim == 2 else 6
     if len(rows) < e:
         return None
@@ -110,7 +111,7 @@ def solve_problem(triples, dim, size, mult=None, rnd=None):
     if sv[-1] <= 0:
         return None
     return {'rows': rows, 'ys': ys, 'x': x, 'smax': sv[0], 'smin': sv[-1], 'cond': sv[0] / sv[-1], 'e': e, 'n': len(rows),
-            'ymag': ymag, 'ynorm': math.sqrt(math.fsum(v * v for v in ys))}
+            'ymag': ymag, 'cmag': cmag, 'ynorm': math.sqrt(math.fsum(v * v for v in ys))}
 
 
 _CACHE = {}
@@ -155,7 +156,10 @@ def analyse(case):
                         #   tol * max(|x'|, |Y'| / sigma_max')   (explicit inverse of the normal matrix; J^T Y is accurate relative to |J|^T |Y|)
                         # + 8 u sqrt(n) max_k sum_c |(t - s)_c n_c| / sigma_min'   (the right-hand sides themselves are rounded termwise)
                         base = max(max(abs(v) for v in seen['x']), seen['ynorm'] / seen['smax'])
-                        a = info['tol'] * base + 8.0 * u * math.sqrt(seen['n']) * seen['ymag'] / seen['smin']
+                        a = info['tol'] * base + 8.0 * u * math.sqrt(seen['n']) * seen['ymag'] / seen['smin'] + 1e-300
+                        if p['used'] is not None:
+                            # PreconditionedPointSet rounds scale*s and scale*t independently: t' - s' carries u (|t'| + |s'|)
+                            a += 4.0 * u * math.sqrt(seen['n']) * seen['cmag'] / seen['smin']
                         icfg = 1.0 / abs(cfg) if cfg else 1.0
                         info['allow'] = [a * icfg] * dim + [a] * (plain['e'] - dim)
                         info['scale'] = max(max(abs(v) for v in info['xexp']), 1e-300)
@@ -491,13 +495,12 @@ def oracle(case, out, stats):
             e = P['e']
             r = [math.fsum(P['rows'][k][c] * x[c] for c in range(e)) - P['ys'][k] for k in range(P['n'])]
             g = [math.fsum(P['rows'][k][i] * r[k] for k in range(P['n'])) for i in range(e)]
-            gs = max(math.fsum(abs(P['rows'][k][i]) * (math.fsum(abs(P['rows'][k][c] * x[c]) for c in range(e)) + abs(P['ys'][k]))
-                               for k in range(P['n'])) for i in range(e))
-            # + the effect of the termwise rounding of the right-hand sides: |J^T dY| <= sum_k |J_ki| 8 u ymag
-            gabs = 8.0 * U[info['T']] * P['ymag'] * max(math.fsum(abs(P['rows'][k][i]) for k in range(P['n'])) for i in range(e))
+            # g = J^T J (x - x_ls) exactly, so the allowance of x maps to |g_i| <= sum_j |J^T J|_ij allow_j
+            JtJ = [[math.fsum(P['rows'][k][i] * P['rows'][k][j] for k in range(P['n'])) for j in range(e)] for i in range(e)]
+            galw = [math.fsum(abs(JtJ[i][j]) * allow[j] for j in range(e)) for i in range(e)]
             bump('normal_equations_checked')
-            if not (max(abs(v) for v in g) <= tol * max(gs, 1e-300) + gabs):
-                bad('normal-equations', 'J^T(Jx-Y) = %.3g exceeds %.3g' % (max(abs(v) for v in g), tol * gs + gabs))
+            if not all(abs(g[i]) <= 2.0 * galw[i] for i in range(e)):
+                bad('normal-equations', 'J^T(Jx-Y) = %s exceeds %s' % (['%.3g' % v for v in g], ['%.3g' % (2 * v) for v in galw]))
             if li in group:
                 gx.append((li, x, allow, info))
             # ground truth
